@@ -112,7 +112,7 @@ def run_plan(plan, sched_seed=None, sched_replay=None):
 
     def finish(world, run):
         run.check_lost()
-        world.check_loop_health()
+        world.check_loop_health(internal_errors=True)
 
     # reach probe only (not an oracle): a connection-layer packet handed to
     # send_packet() while that endpoint's exchange is in progress is one
